@@ -58,3 +58,10 @@ Theorem np_preemph_spec :
   if i =? 0 then nth 0 x d else nth (Z.to_nat i) x d - c * nth (Z.to_nat (i - 1)) x d.
 Proof. exact np_preemph_spec_l. Qed.
 Print Assumptions np_preemph_spec.
+
+(* ---- tie to the source: the torch port's bookkeeping is what gen/stft.py extracts from torch.py ---- *)
+From Verif Require Import Stft.Tie.
+Theorem torch_model_is_source :
+  forall (A : Type) (c : cfg) (x : list A), torch_frames_src c x = torch_frames c x.
+Proof. exact @torch_frames_tie. Qed.
+Print Assumptions torch_model_is_source.
